@@ -130,6 +130,12 @@ pub fn scenario(g: &mut G, ctx: &RunCtx) -> RunReport {
         plan.relax_line_endings();
         g.probe("chunks-ending-in-bare-lf");
     }
+    // (no draw) a download of 128 MiB that never gets far: the announced length is the server's promise, what
+    // has arrived is the caller's (the body under test ends in a pause anyway)
+    if plan.framing == Framing::Length && plan.payload.len() % 5 == 3 && plan.replace_head_field_value("Content-Length", &(134_217_728usize + plan.payload.len()).to_string()) {
+        plan.declared_len = 134_217_728 + plan.payload.len();
+        g.probe("announced-length-of-128-MiB");
+    }
     // where the server goes silent (connection stays open)
     let head_len = plan.wire.head_len;
     let frame_end = plan.wire.frame_end;
@@ -161,7 +167,7 @@ pub fn scenario(g: &mut G, ctx: &RunCtx) -> RunReport {
         plan.overall_timeout_ms = Some(7_200_000);
         g.probe("overall-timeout-set-far-away");
     }
-    let k = if plan.framing == Framing::Chunked && plan.overall_timeout_ms.is_some() && k % 2 == 1 && frame_end >= head_len + 5 {
+    let k = if plan.framing == Framing::Chunked && ((plan.overall_timeout_ms.is_some() && k % 2 == 1) || k % 5 == 2) && frame_end >= head_len + 5 {
         g.probe("pause-inside-the-last-chunk-line-ending");
         frame_end - 1 - (k % 4) / 2
     } else {
